@@ -157,5 +157,42 @@ func scenarios(r *vh.Run) []Scenario {
 			}
 		}
 	}
+
+	// ---- F. receiver backlog: many one-segment writes, the peer application does not read before the closer's Close
+	// has returned (TCP) / before T (UDP, where the closed receive window stops the writer).  Counts sit around the
+	// receiver's capacities: recvChan 256, recvQueue 4096, 4096+1+256 = 4353.
+	type bl struct {
+		tr, cl string
+		cnt    int
+		size   int
+	}
+	var bls []bl
+	if thorough {
+		for _, tr := range transports {
+			for _, cl := range closers {
+				for i, cnt := range []int{255, 256, 257, 4095, 4096, 4097, 4351, 4352, 4353, 4354, 4400, 5000} {
+					bls = append(bls, bl{tr, cl, cnt, []int{16, 1, 7, 16}[i%4]})
+				}
+			}
+		}
+	} else {
+		bls = []bl{{"tcp", "client", 257, 1}, {"tcp", "client", 4352, 16}, {"tcp", "client", 4353, 16}, {"tcp", "server", 4352, 7}, {"tcp", "client", 5000, 16},
+			{"udp", "client", 4400, 16}, {"udp", "server", 4353, 16}}
+	}
+	for _, b := range bls {
+		sc := Scenario{Name: fmt.Sprintf("backlog%d", b.cnt), Transport: b.tr, Closer: b.cl, N: b.cnt * b.size, Writes: b.cnt, WriteSize: b.size, ReadAfterClose: true}
+		if b.tr == "udp" {
+			sc.ReadStall = 3 * time.Second // the writer stops when the receive window closes: resume at T
+			sc.Latency = 1 * ms
+		}
+		add(sc)
+	}
+	// the same with a bounded pipe (the writer is stopped by TCP back-pressure) and with a reader that resumes slowly
+	add(Scenario{Name: "backlog4400-cap", Transport: "tcp", Closer: "client", N: 4400 * 16, Writes: 4400, WriteSize: 16, ReadAfterClose: true, ReadStall: 2 * time.Second, TCPCap: 16 * kb})
+	if thorough {
+		add(Scenario{Name: "backlog6000-slow", Transport: "tcp", Closer: "client", N: 6000 * 16, Writes: 6000, WriteSize: 16, ReadAfterClose: true, ReadPause: 1 * ms})
+		add(Scenario{Name: "backlog6000-slow", Transport: "tcp", Closer: "server", N: 6000 * 8, Writes: 6000, WriteSize: 8, ReadAfterClose: true, ReadPause: 1 * ms})
+		add(Scenario{Name: "backlog4400-cap", Transport: "tcp", Closer: "server", N: 4400 * 16, Writes: 4400, WriteSize: 16, ReadAfterClose: true, ReadStall: 2 * time.Second, TCPCap: 1 * kb})
+	}
 	return out
 }
